@@ -1,7 +1,6 @@
 package main
 
 import (
-	"fmt"
 	"go/token"
 	"go/types"
 	"math/big"
@@ -161,6 +160,16 @@ func init() {
 	uf1("(net/netip.Addr).As16", "netip_as16", KArray)
 	uf1("net/netip.AddrFrom4", "netip_from4", KOpaque)
 	uf1("net/netip.AddrFrom16", "netip_from16", KOpaque)
+	models["net/netip.IPv4Unspecified"] = func(f *Frame, args []*SVal, rt types.Type, pos token.Pos) *SVal {
+		netipDecl(f.g)
+		f.used("net/netip.IPv4Unspecified is an IPv4 address")
+		f.g.declareUF("netip_v4unspec", "() Opq_net_netip_Addr")
+		if !f.g.ufDecl["netip_v4unspec_ax"] {
+			f.g.ufDecl["netip_v4unspec_ax"] = true
+			f.g.addAxiom("(and (netip_is4 netip_v4unspec) (not (netip_is4in6 netip_v4unspec)) (not (netip_is6 netip_v4unspec)) (netip_valid netip_v4unspec))")
+		}
+		return scalar(rt, KOpaque, "netip_v4unspec")
+	}
 	models["(net/netip.AddrPort).IsValid"] = func(f *Frame, args []*SVal, rt types.Type, pos token.Pos) *SVal {
 		netipDecl(f.g)
 		return scalar(rt, KBool, sApp("netip_valid", sApp("netip_ap_addr", args[0].Term)))
@@ -176,6 +185,34 @@ func init() {
 		netipDecl(f.g)
 		f.oblige("panic", sOr(sApp("netip_is4", args[0].Term), sApp("netip_is4in6", args[0].Term)), pos, "netip.Addr.As4 on an address that is not IPv4 or IPv4-mapped")
 		return as4(f, args, rt, pos)
+	}
+
+	// ---------------- unique (string interning): Value(Make(s)) == s
+	models["unique.Make"] = func(f *Frame, args []*SVal, rt types.Type, pos token.Pos) *SVal {
+		g := f.g
+		f.used("unique.Make/Handle.Value: Value(Make(s)) == s (strings only)")
+		if args[0].K != KString {
+			return g.freshVal(rt, "uniq")
+		}
+		g.usedStr = true
+		g.W.opaque[string(g.W.scalarSort(rt))] = true
+		g.declareUF("unique_make", "(Str) "+string(g.W.scalarSort(rt)))
+		g.declareUF("unique_value", "("+string(g.W.scalarSort(rt))+") Str")
+		h := sApp("unique_make", args[0].Term)
+		g.assume(f.curReach, sEq(sApp("unique_value", h), args[0].Term))
+		return scalar(rt, KOpaque, h)
+	}
+	models["(unique.Handle[T]).Value"] = func(f *Frame, args []*SVal, rt types.Type, pos token.Pos) *SVal {
+		g := f.g
+		if kindOf(rt) != KString {
+			return g.freshVal(rt, "uniqv")
+		}
+		g.usedStr = true
+		g.declareUF("unique_make", "(Str) "+string(g.W.scalarSort(args[0].T)))
+		g.declareUF("unique_value", "("+string(g.W.scalarSort(args[0].T))+") Str")
+		r := scalar(rt, KString, sApp("unique_value", args[0].Term))
+		g.assume(f.curReach, g.typeInv(r))
+		return r
 	}
 
 	// ---------------- math/bits
@@ -255,15 +292,11 @@ func init() {
 	models["bytes.Equal"] = func(f *Frame, args []*SVal, rt types.Type, pos token.Pos) *SVal {
 		f.used("bytes.Equal: true iff lengths equal and all bytes equal")
 		g := f.g
-		a, b := args[0], args[1]
-		h := g.heapGet(f.curState, elemFam(tByte), g.elemHeapSort(tByte))
-		r := g.fresh("bytes.eq", SBool)
-		k := g.nm("k")
-		all := fmt.Sprintf("(forall ((%s (_ BitVec 64))) (=> (and (bvsle %s %s) (bvslt %s %s)) (= (select (select %s %s) (bvadd %s %s)) (select (select %s %s) (bvadd %s %s)))))",
-			k, bv64(0), k, k, a.Sub[2].Term, h, a.Sub[0].Term, a.Sub[1].Term, k, h, b.Sub[0].Term, b.Sub[1].Term, k)
-		g.assume(f.curReach, sEq(r, sAnd(sEq(a.Sub[2].Term, b.Sub[2].Term), all)))
-		g.quantAsm = true
-		return scalar(rt, KBool, r)
+		r := mkBool(g.fresh("bytes.eq", SBool))
+		vars := map[string]*SVal{"$a": args[0], "$b": args[1], "$r": r}
+		g.specAssume(f.curReach, f.curState, vars, "$r ==> $a == $b")
+		g.specAssume(f.curReach, f.curState, vars, "$a == $b ==> $r")
+		return scalar(rt, KBool, r.Term)
 	}
 
 	// ---------------- crypto/subtle
